@@ -15,7 +15,6 @@ import (
 	"fmt"
 	"net"
 	"os"
-	"path/filepath"
 	"sort"
 	"sync"
 	"testing"
@@ -164,18 +163,15 @@ var (
 // serves both APIs, 2 and 3 serve only v1beta1.
 func c04Pool(t testing.TB) []*c04Server {
 	c04Once.Do(func() {
-		dir, err := os.MkdirTemp("", "c04fn")
-		if err != nil {
-			t.Fatalf("VERIF-INCONCLUSIVE: %v", err)
-		}
 		for i, kind := range []struct{ v1, b1 bool }{{true, false}, {true, true}, {false, true}, {false, true}} {
 			s := &c04Server{id: i, serveV1: kind.v1, serveB1: kind.b1}
-			path := filepath.Join(dir, fmt.Sprintf("fn%d.sock", i))
-			lis, err := net.Listen("unix", path)
+			// Abstract unix sockets: nothing is left behind in the file system.
+			name := fmt.Sprintf("c04fn-%d-%d", os.Getpid(), i)
+			lis, err := net.Listen("unix", "@"+name)
 			if err != nil {
 				t.Fatalf("VERIF-INCONCLUSIVE: cannot listen on unix socket: %v", err)
 			}
-			s.endpoint = "unix://" + path
+			s.endpoint = "unix-abstract:" + name
 			g := grpc.NewServer()
 			if s.serveV1 {
 				fnv1.RegisterFunctionRunnerServiceServer(g, &c04V1{s: s})
